@@ -23,6 +23,7 @@ func propC18() *Property {
 			{ID: "R18.2", Floor: 3, Text: "PacketOverStreamTunnel.Read reads the stream only through io.ReadFull", Run: r18_2},
 			{ID: "R18.3", Floor: 5, Text: "violations are errors; loops stop on tunnel read errors", Run: r18_3},
 			{ID: "R18.4", Floor: 4, Text: "remembered headers are private copies keyed by the datagram's own address; reply headers come from the replying address", Run: r18_4},
+			{ID: "R18.6", Floor: 2, Text: "every UDP receive buffer of the association and forwarding loops holds a maximum-size datagram (65507 bytes of payload): a smaller buffer truncates silently", Run: r18_6},
 			{ID: "R18.5", Floor: 3, Text: "AddrSpec.ReadFromSocks5 and WriteToSocks5 agree on type bytes, lengths and port byte order", Run: r18_5},
 		},
 	}
@@ -726,4 +727,91 @@ func varargConsts(v ssa.Value) ([]int64, bool) {
 		}
 	}
 	return out, set == int(arr.Len())
+}
+
+
+// r18_6: ReadFromUDP silently truncates a datagram that does not fit its
+// buffer (Go does not surface MSG_TRUNC). The relay loops must therefore
+// offer room for the largest UDP payload, 65507 bytes, whatever part of a
+// larger buffer they read into.
+func r18_6(c *RC) {
+	p := c.P
+	n := 0
+	for _, fn := range p.Funcs(s5Pkg) {
+		instrs(fn, func(_ *ssa.BasicBlock, _ int, in ssa.Instruction) {
+			cl, ok := in.(ssa.CallInstruction)
+			if !ok || calleeID(cl) != "(*net.UDPConn).ReadFromUDP" {
+				return
+			}
+			n++
+			key := "udp-receive-room@" + fnName(fn)
+			var size func(v ssa.Value, d int) int64
+			size = func(v ssa.Value, d int) int64 {
+				if d > 6 {
+					return -1
+				}
+				switch x := v.(type) {
+				case *ssa.MakeSlice:
+					if k, ok := constInt(x.Len); ok {
+						return k
+					}
+				case *ssa.Alloc:
+					if arr, ok := x.Type().(*types.Pointer).Elem().Underlying().(*types.Array); ok {
+						return arr.Len()
+					}
+				case *ssa.Slice:
+					base := size(x.X, d+1)
+					lo, hi := int64(0), base
+					if x.Low != nil {
+						k, ok := constInt(x.Low)
+						if !ok {
+							return -1
+						}
+						lo = k
+					}
+					if x.High != nil {
+						k, ok := constInt(x.High)
+						if !ok {
+							return -1
+						}
+						hi = k
+					}
+					if hi < 0 {
+						return -1
+					}
+					return hi - lo
+				case *ssa.Phi:
+					// a buffer variable of a loop: all incoming values the same size
+					r := int64(-2)
+					for _, e := range x.Edges {
+						if e == ssa.Value(x) {
+							continue
+						}
+						k := size(e, d+1)
+						if r == -2 {
+							r = k
+						} else if r != k {
+							return -1
+						}
+					}
+					if r >= 0 {
+						return r
+					}
+				}
+				return -1
+			}
+			room := size(cl.Common().Args[1], 0)
+			switch {
+			case room < 0:
+				c.Undecided(key, in.Pos(), "cannot determine the size of the buffer handed to ReadFromUDP (%s)", describe(cl.Common().Args[1]))
+			case room < 65507:
+				c.Bad(key, in.Pos(), "ReadFromUDP is given room for %d bytes; a datagram can carry 65507, and a longer one is cut to fit without any error, so a large reply reaches the client shortened", room)
+			default:
+				c.OKH(key, in.Pos(), "room for %d bytes (>= 65507)", room)
+			}
+		})
+	}
+	if n == 0 {
+		c.Undecided("udp-receive-room", token.NoPos, "no ReadFromUDP in pkg/socks5")
+	}
 }
